@@ -26,7 +26,7 @@ fn ju(v: &Value, k: &str) -> u128 {
 }
 
 pub fn random_setup(rng: &mut StdRng) -> Setup {
-    let fees = [0u128, 1, 10_000, 33_333, 50_000, 100_000];
+    let fees = [0u128, 1, 10_000, 33_333, 50_000, 100_000, 100_001, 150_000];
     Setup {
         same_prefix: rng.gen_bool(0.25),
         treasury: rng.gen_bool(0.5),
